@@ -103,11 +103,11 @@ def ar_programs(thorough):
     for o in allopts:
         if o["roe"]:
             out.append((dict(o, fam="ar_exit_stop", threads={"app": [["exit"], ["stop"]]}), 2))
-            if thorough:
+            if thorough and o["dos"]:
                 out.append((dict(o, fam="ar_exit_stop", threads={"env": [["exit"]], "app": [["stop"]]}), 2))
     # all three
     for o in allopts:
-        if o["roe"] and (thorough or (o["dos"] and not o["deb"])):
+        if o["roe"] and ((thorough and o["kill_after"]) or (o["dos"] and not o["deb"])):
             out.append((dict(o, fam="ar_ev_exit_stop", threads={"disp": [["ev", "m"]], "app": [["exit"], ["stop"]]}), 1))
     return out
 
@@ -261,6 +261,7 @@ def run(c: checklib.Check):
         ("AutoRestart", "AutoRestart_neg_alive.cfg", "C18_NothingAfterStop", 2),
         ("AutoRestart", "AutoRestart_neg_spawn.cfg", "C18_NoSpawnAfterStop", 2),
         ("AutoRestart", "AutoRestart_neg_helpers.cfg", "C18_HelpersGone", 2),
+        ("AutoRestart", "AutoRestart_neg_crash.cfg", "C18_NoCrash", 2),
         ("ShellCommand", f"ShellCommand_{tier}.cfg", None, 2),
         ("ShellCommand", "ShellCommand_neg_drop.cfg", "C18_NoOverlapWhenWaitOrDrop", 1),
         ("ShellCommand", "ShellCommand_neg_plain.cfg", "NegOverlap", 1),
@@ -287,7 +288,7 @@ def run(c: checklib.Check):
     programs += [(AR, p, b) for p, b in ar_programs(c.thorough)]
     programs += [(SH, p, b) for p, b in sh_programs(c.thorough)]
     cap = None if c.thorough else 1200
-    budget = 40000 if c.thorough else None
+    budget = 25000 if c.thorough else None
     try:
         results = _dfs_all(programs, c.jobs, cap=cap, budget=budget)
     except explore.ExploreError as e:
